@@ -282,6 +282,10 @@ def ev(n: ast.AST, env: dict[str, Any], funcs: dict[str, ast.FunctionDef] | None
                     raise
             if n.func.id in funcs and isinstance(funcs[n.func.id], ast.FunctionDef) and depth < 8:
                 return call(funcs[n.func.id], args, kws, funcs, depth + 1)
+            if n.func.id in funcs and isinstance(funcs[n.func.id], tuple) and depth < 8:
+                # a function of another analysed module: evaluated with that module's own functions and globals
+                f_other, funcs_other = funcs[n.func.id]
+                return call(f_other, args, kws, funcs_other, depth + 1)
         if isinstance(n.func, ast.Call) or (isinstance(n.func, ast.Name) and callable(env.get(n.func.id)) and isinstance(env.get(n.func.id), types.FunctionType)):
             f = ev(n.func, env, funcs, depth)
             if isinstance(f, (types.FunctionType, types.MethodType)):
